@@ -379,11 +379,51 @@ func r16tAddressingIsStateless(c *core.Ctx) {
 					if g, ok := base.(*ssa.Global); ok {
 						report("store to package-level variable " + g.String())
 					}
+					// a write through a parameter, or through a pointer read out of the document: addressing a tile
+					// changes the tile matrix set it was asked about
+					switch r := base.(type) {
+					case *ssa.Parameter, *ssa.FreeVar:
+						report("store through the parameter " + r.Name() + " (the tile matrix set or one of its members is modified)")
+					case *ssa.UnOp:
+						if r.Op == token.MUL && pointerLike(r.Type()) {
+							report("store through a pointer read from memory (" + strings.TrimSpace(r.String()) + "): a member of the tile matrix set is modified in place")
+						}
+					case *ssa.Call, *ssa.Extract, *ssa.Lookup:
+						if v, ok := base.(ssa.Value); ok && pointerLike(v.Type()) {
+							if _, isAlloc := base.(*ssa.Alloc); !isAlloc {
+								if call, isCall := base.(*ssa.Call); !isCall || !freshPointerCall(call) {
+									report("store through a pointer that is not a local variable (" + strings.TrimSpace(v.String()) + ")")
+								}
+							}
+						}
+					}
 				case *ssa.MapUpdate:
 					if u, ok := x.Map.(*ssa.UnOp); ok {
 						if g, ok := u.X.(*ssa.Global); ok {
 							report("update of package-level map " + g.String())
 						}
+						if _, isLocal := u.X.(*ssa.Alloc); !isLocal {
+							report("update of a map that is not a local variable (" + strings.TrimSpace(u.String()) + ")")
+						}
+					}
+					if _, isParam := x.Map.(*ssa.Parameter); isParam {
+						report("update of a map handed in as a parameter")
+					}
+				case *ssa.Range:
+					// the answer for one tile matrix is a function of that matrix: no walk over all matrices of the set
+					if m, ok := x.X.Type().Underlying().(*types.Map); ok && core.TypeShort(m.Elem()) == "tms20.TileMatrix" {
+						bad++
+						c.Bad(R, fmt.Sprintf("addressed-matrix-only/%s#%d", shortFn(f), bad), in.Pos(), "a loop over all tile matrices of the set below the addressing functions: what is answered (or refused) for one matrix depends on its siblings", core.PathTo(reach, f)...)
+					}
+				case *ssa.Field:
+					if isDeclaredBBox(x.X.Type(), x.Field) {
+						bad++
+						c.Bad(R, fmt.Sprintf("declared-bounding-box-not-used/%s#%d", shortFn(f), bad), in.Pos(), "the informative boundingBox member of the document is read below the addressing functions: the grid is what point of origin, cell size and matrix size say, whatever box the document declares", core.PathTo(reach, f)...)
+					}
+				case *ssa.FieldAddr:
+					if isDeclaredBBox(x.X.Type(), x.Field) {
+						bad++
+						c.Bad(R, fmt.Sprintf("declared-bounding-box-not-used/%s#%d", shortFn(f), bad), in.Pos(), "the informative boundingBox member of the document is read below the addressing functions: the grid is what point of origin, cell size and matrix size say, whatever box the document declares", core.PathTo(reach, f)...)
 					}
 				case ssa.CallInstruction:
 					if cal := x.Common().StaticCallee(); cal != nil {
@@ -1025,4 +1065,22 @@ func r47ColumnConstraints(c *core.Ctx) {
 		}
 	}
 	c.Check(R, construct, loop.Pos(), bad == "", "NOT NULL iff notnull == 1 and PRIMARY KEY iff pk == 1, each on its own", "createSQL does not copy the column constraints of the source table: "+bad)
+}
+
+// freshPointerCall: the call returns a pointer to memory nobody else holds (a constructor of the standard library
+// or of a dependency: slippy.NewTile, new, ...).
+func freshPointerCall(call *ssa.Call) bool {
+	if g := call.Call.StaticCallee(); g != nil {
+		return strings.HasPrefix(g.Name(), "New") || strings.HasPrefix(g.Name(), "new")
+	}
+	return false
+}
+
+// isDeclaredBBox: field k of (a pointer to) tms20.TileMatrixSet is its BoundingBox member.
+func isDeclaredBBox(t types.Type, k int) bool {
+	if core.TypeShort(t) != "tms20.TileMatrixSet" {
+		return false
+	}
+	st, ok := core.DerefStruct(t)
+	return ok && k < st.NumFields() && st.Field(k).Name() == "BoundingBox"
 }
